@@ -85,6 +85,8 @@ type holder struct {
 	end        int64  // atomic: min tick taken before any call of rel; inf = never called
 	cancelTick *int64 // atomic: tick taken before cancel() of its context; inf = not (yet) cancelled
 
+	nested bool // acquired on a context that already carried a holder (set before the holder is published)
+
 	inTR   int32 // atomic: TemporarilyRelease nesting depth currently executing (owner only)
 	window int32 // atomic: >0 while the outermost f has returned and TemporarilyRelease has not
 
@@ -161,7 +163,8 @@ func (e *env) acquire(a *actor, ctx context.Context, kind int, cancelTick *int64
 	a.ev(e, id, evAcqCall, 0)
 	hctx, rel := concurrencylimiter.Acquire(ctx)
 	t := a.ev(e, id, evAcqRet, 0)
-	h := &holder{id: id, owner: a.id, kind: kind, ctx: hctx, rel: rel, start: t, end: inf, cancelTick: cancelTick}
+	h := &holder{id: id, owner: a.id, kind: kind, ctx: hctx, rel: rel, start: t, end: inf, cancelTick: cancelTick,
+		nested: kind == ctxNormal && ctx != e.base}
 	e.mu.Lock()
 	e.holders = append(e.holders, h)
 	e.feat["acquire:"+ctxNames[kind]]++
